@@ -14,6 +14,7 @@ import (
 	"runtime/debug"
 	"time"
 
+	"github.com/db47h/decimal"
 	verifrt "github.com/db47h/decimal/verifrt"
 )
 
@@ -207,6 +208,11 @@ func main() {
 			break
 		}
 		seed := *seed0 + uint64(i)**stride
+		// three scenarios in four start cold; every fourth inherits the state the
+		// previous ones left in the process (a violation that needs it is replayed
+		// as a seed sequence)
+		coldStart = seed%4 != 0
+		resetLibrary()
 		sc, o := wd.gen(seed, *tier)
 		if o == nil || (o.Violation == nil && o.Infra == "") {
 			prep := o
@@ -327,6 +333,7 @@ func main() {
 // valid arguments all of them) is reported as a violation of the "nothing but
 // ErrNaN panics / no malformed state" kind rather than crashing the worker.
 func safeRun(run func(*Scenario) *Outcome, sc *Scenario) (o *Outcome) {
+	resetLibrary()
 	defer func() {
 		if r := recover(); r != nil {
 			if verifrt.Active() {
@@ -429,4 +436,18 @@ func digest64(hexs string) uint64 {
 	var v uint64
 	fmt.Sscanf(hexs, "%16x", &v)
 	return v
+}
+
+// resetLibrary puts the library's package-level state back to what it was when
+// the package finished initialising: every scenario starts cold (lazily built
+// caches and tables, Once-guarded initialisation) and no scenario depends on
+// what earlier ones left behind in this process.
+var coldStart = true
+
+func resetLibrary() {
+	if verifrt.Active() || !coldStart {
+		return
+	}
+	decimal.VerifResetGlobals()
+	verifrt.ResetOnce()
 }
